@@ -21,6 +21,10 @@ class AnchorMissing(AnalysisError):
     pass
 
 
+class StarredCall(AnalysisError):
+    pass
+
+
 def repo_root() -> Path:
     return Path(os.environ.get("LADIM_REPO", "/repo"))
 
@@ -204,40 +208,40 @@ class Program:
         if "model" not in self.modules:
             return
         fi = self.modules["model"].functions.get("init_module")
+        scopes: list[ast.AST] = []
         if fi is not None:
-            for node in ast.walk(fi.node):
-                if isinstance(node, ast.Assign) and isinstance(node.value, ast.Call):
-                    call = node.value
-                    if (
-                        isinstance(call.func, ast.Name)
-                        and call.func.id == "dict"
-                        and call.keywords
-                        and all(
-                            isinstance(k.value, ast.Constant)
-                            and isinstance(k.value.value, str)
-                            for k in call.keywords
-                        )
-                    ):
-                        table = {k.arg: k.value.value for k in call.keywords}
-                        if all(v.startswith("ladim.") for v in table.values()):
-                            self.role_module = {
-                                r: v[len("ladim.") :] for r, v in table.items()
-                            }
-                        else:
-                            self.role_class = table
-                elif isinstance(node, ast.Assign) and isinstance(node.value, ast.Dict):
-                    d = node.value
-                    if all(
-                        isinstance(k, ast.Constant) and isinstance(v, ast.Constant)
-                        for k, v in zip(d.keys, d.values)
-                    ):
-                        table = {k.value: v.value for k, v in zip(d.keys, d.values)}
-                        if all(str(v).startswith("ladim.") for v in table.values()):
-                            self.role_module = {
-                                r: v[len("ladim.") :] for r, v in table.items()
-                            }
-                        else:
-                            self.role_class = table
+            scopes.append(fi.node)
+        scopes.append(self.modules["model"].tree)  # tables may be hoisted to module level
+
+        def table_of(value: ast.expr):
+            if isinstance(value, ast.Call) and isinstance(value.func, ast.Name) and value.func.id == "dict" and value.keywords and all(
+                k.arg and isinstance(k.value, ast.Constant) and isinstance(k.value.value, str) for k in value.keywords
+            ):
+                return {k.arg: k.value.value for k in value.keywords}
+            if isinstance(value, ast.Dict) and value.keys and all(
+                isinstance(k, ast.Constant) and isinstance(v, ast.Constant) and isinstance(k.value, str) and isinstance(v.value, str)
+                for k, v in zip(value.keys, value.values)
+            ):
+                return {k.value: v.value for k, v in zip(value.keys, value.values)}
+            return None
+
+        for scope in scopes:
+            for node in ast.walk(scope):
+                value = None
+                if isinstance(node, ast.Assign):
+                    value = node.value
+                elif isinstance(node, ast.AnnAssign) and node.value is not None:
+                    value = node.value
+                if value is None:
+                    continue
+                table = table_of(value)
+                if not table or len(table) < 6:
+                    continue
+                if all(str(v).startswith("ladim.") for v in table.values()):
+                    if not self.role_module:
+                        self.role_module = {r: v[len("ladim.") :] for r, v in table.items()}
+                elif not self.role_class and all(v[:1].isupper() for v in table.values()):
+                    self.role_class = table
         init = self.modules["model"].functions.get("Model.__init__")
         if init is not None:
             for node in ast.walk(init.node):
@@ -490,7 +494,7 @@ class Program:
                 if not (
                     isinstance(t, ast.Compare)
                     and len(t.ops) == 1
-                    and isinstance(t.ops[0], ast.In)
+                    and isinstance(t.ops[0], (ast.In, ast.NotIn))
                     and isinstance(t.comparators[0], (ast.List, ast.Tuple, ast.Set))
                 ):
                     continue
@@ -499,7 +503,8 @@ class Program:
                     for e in t.comparators[0].elts
                     if isinstance(e, ast.Constant) and isinstance(e.value, str)
                 ]
-                for sub in node.body:
+                arm = node.body if isinstance(t.ops[0], ast.In) else node.orelse
+                for sub in arm:
                     if (
                         isinstance(sub, ast.Assign)
                         and len(sub.targets) == 1
@@ -556,9 +561,9 @@ def bind_args(callee: FuncInfo, call: ast.Call, skip_self: bool = True) -> dict[
             pos = pos[1:]
     out: dict[str, ast.expr] = dict(callee.defaults())
     out.pop("self", None)
+    if any(isinstance(a, ast.Starred) for a in call.args):
+        raise StarredCall(f"starred argument in call {short(call)}")
     for name, arg in zip(pos, call.args):
-        if isinstance(arg, ast.Starred):
-            raise AnalysisError(f"starred argument in call {short(call)}")
         out[name] = arg
     for kw in call.keywords:
         if kw.arg is None:
@@ -592,3 +597,160 @@ def increment_of(st: ast.AST):
         if unparse(r) == t and isinstance(l, ast.Constant) and isinstance(l.value, int) and isinstance(st.value.op, ast.Add):
             return t, l.value
     return None
+
+
+def single_defs(fn: ast.AST) -> dict[str, ast.expr]:
+    """Local names assigned exactly once (simple `name = expr`) in fn -> their defining expression."""
+    count: dict[str, int] = {}
+    defs: dict[str, ast.expr] = {}
+    for n in walk_no_nested(fn):
+        tg = []
+        if isinstance(n, ast.Assign):
+            tg = n.targets
+        elif isinstance(n, (ast.AugAssign, ast.AnnAssign)):
+            tg = [n.target]
+        elif isinstance(n, (ast.For, ast.comprehension)):
+            tg = [n.target]
+        elif isinstance(n, ast.With):
+            tg = [i.optional_vars for i in n.items if i.optional_vars is not None]
+        for t in tg:
+            for x in ast.walk(t):
+                if isinstance(x, ast.Name):
+                    count[x.id] = count.get(x.id, 0) + 1
+        if isinstance(n, ast.Assign) and len(n.targets) == 1 and isinstance(n.targets[0], ast.Name):
+            defs[n.targets[0].id] = n.value
+        if isinstance(n, ast.AnnAssign) and isinstance(n.target, ast.Name) and n.value is not None:
+            defs[n.target.id] = n.value
+    params = set()
+    if isinstance(fn, ast.FunctionDef):
+        a = fn.args
+        params = {x.arg for x in a.posonlyargs + a.args + a.kwonlyargs}
+    return {k: v for k, v in defs.items() if count.get(k, 0) == 1 and k not in params}
+
+
+class _Subst(ast.NodeTransformer):
+    def __init__(self, mapping: dict[str, ast.expr], depth: int = 6) -> None:
+        self.mapping = mapping
+        self.depth = depth
+
+    def visit_Name(self, node: ast.Name):
+        if isinstance(node.ctx, ast.Load) and node.id in self.mapping and self.depth > 0:
+            import copy
+
+            sub = copy.deepcopy(self.mapping[node.id])
+            return _Subst(self.mapping, self.depth - 1).visit(sub)
+        return node
+
+
+def expand_locals(e: ast.AST, fn: ast.AST, defs: Optional[dict] = None) -> ast.AST:
+    """Copy of `e` with single-assignment local temporaries replaced by their definitions."""
+    import copy
+
+    defs = defs if defs is not None else single_defs(fn)
+    return ast.fix_missing_locations(_Subst(defs).visit(copy.deepcopy(e)))
+
+
+def xunparse(e: ast.AST, fn: ast.AST, defs: Optional[dict] = None) -> str:
+    return unparse(expand_locals(e, fn, defs))
+
+
+def unroll_literal_loops(fn: ast.FunctionDef) -> ast.FunctionDef:
+    """Copy of fn where `for v in (<constants>): body` is replaced by the bodies with v substituted."""
+    import copy
+
+    class U(ast.NodeTransformer):
+        def visit_For(self, node: ast.For):
+            self.generic_visit(node)
+            it = node.iter
+            if isinstance(it, (ast.Tuple, ast.List)) and it.elts and all(isinstance(x, ast.Constant) for x in it.elts) and isinstance(node.target, ast.Name) and not node.orelse:
+                out = []
+                for c in it.elts:
+                    for st in node.body:
+                        out.append(_Subst({node.target.id: c}).visit(copy.deepcopy(st)))
+                return out
+            return node
+
+    return ast.fix_missing_locations(U().visit(copy.deepcopy(fn)))
+
+
+def bool_table(test: ast.expr, atom_of, names_env: Optional[dict] = None):
+    """Truth table of a boolean expression over atoms. `atom_of(node)` returns an atom key for
+    leaves it understands (or None).  -> (sorted atom list, {assignment tuple: bool}) or None."""
+    atoms: list[str] = []
+
+    def collect(n):
+        if isinstance(n, ast.BoolOp):
+            return all(collect(v) for v in n.values)
+        if isinstance(n, ast.UnaryOp) and isinstance(n.op, ast.Not):
+            return collect(n.operand)
+        a = atom_of(n)
+        if a is None:
+            return False
+        key = a[0] if isinstance(a, tuple) else a
+        if key not in atoms:
+            atoms.append(key)
+        return True
+
+    if not collect(test):
+        return None
+    atoms.sort()
+
+    def ev(n, asg):
+        if isinstance(n, ast.BoolOp):
+            vals = [ev(v, asg) for v in n.values]
+            return all(vals) if isinstance(n.op, ast.And) else any(vals)
+        if isinstance(n, ast.UnaryOp) and isinstance(n.op, ast.Not):
+            return not ev(n.operand, asg)
+        a = atom_of(n)
+        if isinstance(a, tuple):
+            return asg[a[0]] != a[1]  # (key, negated)
+        return asg[a]
+
+    from itertools import product
+
+    table = {}
+    for vals in product((False, True), repeat=len(atoms)):
+        asg = dict(zip(atoms, vals))
+        table[vals] = ev(test, asg)
+    return atoms, table
+
+
+def sequential_expand(body: list, params: Optional[set] = None):
+    """Process a statement list in order, substituting earlier simple assignments into later
+    expressions (names may be re-assigned).  -> (records, env) where records is a list of
+    (stmt, expanded value expr or None) and env maps names to their final expanded expression."""
+    import copy
+
+    env: dict[str, ast.expr] = {}
+    records = []
+
+    def sub(e):
+        return ast.fix_missing_locations(_Subst(dict(env), depth=1).visit(copy.deepcopy(e)))
+
+    for st in body:
+        if isinstance(st, ast.Assign) and len(st.targets) == 1 and isinstance(st.targets[0], ast.Name):
+            v = sub(st.value)
+            records.append((st, v))
+            env[st.targets[0].id] = v
+        elif isinstance(st, ast.AnnAssign) and isinstance(st.target, ast.Name) and st.value is not None:
+            v = sub(st.value)
+            records.append((st, v))
+            env[st.target.id] = v
+        elif isinstance(st, ast.Assign):
+            records.append((st, sub(st.value)))
+        elif isinstance(st, ast.Expr):
+            records.append((st, sub(st.value)))
+        elif isinstance(st, ast.Return) and st.value is not None:
+            records.append((st, sub(st.value)))
+        else:
+            records.append((st, None))
+    return records, env
+
+
+def call_chain(e: ast.expr):
+    """x.a(..).b(..).c(..) -> ([("c", call), ("b", call), ("a", call)], x)"""
+    out = []
+    while isinstance(e, ast.Call) and isinstance(e.func, ast.Attribute):
+        out.append((e.func.attr, e))
+        e = e.func.value
+    return out, e
